@@ -350,4 +350,875 @@ theorem local_encSecret (otype : Nat) (value : Bytes) (alg len format subtype : 
                 · cases h
               · cases h
 
+/-! ### response payloads -/
+
+theorem local_uidItem (u : String) : localOk (uidItem u) = true := local_txt _ _ (by decide)
+
+/-- **`encData_valid`, local part**: under the range predicate on the data (and encodable oracle subtrees) every
+item of the payload has standard tags and values that fit their fixed-width types. -/
+theorem local_encData (ver op : Nat) (extra : List TItem) (d : Data) (ks : List TItem)
+    (hr : dataInRange d = true) (hx : localOkL extra = true) (h : encData ver op extra d = some ks) :
+    localOkL ks = true := by
+  cases d with
+  | uid u =>
+    simp only [encData] at h
+    split at h
+    · simp only [Option.some.injEq] at h; subst h
+      simp only [localOkL_cons, localOkL_nil, Bool.and_true, Bool.and_eq_true]
+      exact ⟨local_enm _ _ (by decide) (by decide), local_uidItem u⟩
+    · split at h
+      · simp only [Option.some.injEq] at h; subst h
+        simp only [localOkL_cons, localOkL_nil, Bool.and_true]; exact local_uidItem u
+      · split at h
+        · split at h
+          · simp only [Option.some.injEq] at h; subst h
+            simp only [localOkL_cons, localOkL_nil, Bool.and_true]; exact local_uidItem u
+          · cases h
+        · cases h
+  | uidAttr u a =>
+    simp only [encData] at h
+    split at h
+    · split at h
+      · cases a with
+        | none => cases h
+        | some a =>
+          simp only at h
+          cases hx1 : encAttr1x a with
+          | none => rw [hx1] at h; cases h
+          | some x =>
+            rw [hx1] at h
+            simp only [Option.map_some, Option.some.injEq] at h; subst h
+            simp only [localOkL_cons, localOkL_nil, Bool.and_true, Bool.and_eq_true]
+            exact ⟨local_uidItem u, local_encAttr1x a x (by simpa [dataInRange, optAll] using hr) hx1⟩
+      · simp only [Option.some.injEq] at h; subst h
+        simp only [localOkL_cons, localOkL_nil, Bool.and_true]; exact local_uidItem u
+    · cases h
+  | keyPair priv pub =>
+    simp only [encData] at h
+    split at h
+    · simp only [Option.some.injEq] at h; subst h
+      simp only [localOkL_cons, localOkL_nil, Bool.and_true, Bool.and_eq_true]
+      exact ⟨local_txt _ _ (by decide), local_txt _ _ (by decide)⟩
+    · cases h
+  | uids us =>
+    simp only [encData] at h
+    split at h
+    · simp only [Option.some.injEq] at h; subst h
+      exact localOkL_map _ _ (fun u _ => local_uidItem u)
+    · cases h
+  | object otype u value alg len format subtype wrapped =>
+    simp only [dataInRange, Bool.and_eq_true] at hr
+    simp only [encData] at h
+    split at h
+    · split at h
+      · cases h
+      · rename_i v hv
+        split at h
+        · rename_i s hs
+          simp only [Option.some.injEq] at h; subst h
+          simp only [localOkL_cons, localOkL_nil, Bool.and_true, Bool.and_eq_true]
+          exact ⟨local_enm _ _ (by decide) hr.1.1.1.1, local_uidItem u,
+            local_encSecret _ _ _ _ _ _ _ _ _ hr.1.1.1.2 hr.1.1.2 hr.1.2 hr.2 hx hs⟩
+        · cases h
+    · cases h
+  | attrs u as =>
+    simp only [dataInRange] at hr
+    rw [List.all_eq_true] at hr
+    simp only [encData] at h
+    split at h
+    · split at h
+      · cases hm : mapO encAttr1x as with
+        | none => rw [hm] at h; cases h
+        | some xs =>
+          rw [hm] at h
+          simp only [Option.map_some, Option.some.injEq] at h; subst h
+          simp only [localOkL_cons, Bool.and_eq_true]
+          exact ⟨local_uidItem u, localOkL_mapO _ _ _ hm (fun a ha b hb => local_encAttr1x a b (hr a ha) hb)⟩
+      · split at h
+        · cases h
+        · cases hm : mapO encAttr20 as with
+          | none => rw [hm] at h; cases h
+          | some xs =>
+            rw [hm] at h
+            simp only [Option.map_some, Option.some.injEq] at h; subst h
+            simp only [localOkL_cons, localOkL_nil, Bool.and_true, Bool.and_eq_true]
+            exact ⟨local_uidItem u, local_struct _ _ (by decide)
+              (localOkL_mapO _ _ _ hm (fun a ha b hb => local_encAttr20 a b (hr a ha) hb))⟩
+    · cases h
+  | names u ns =>
+    simp only [encData] at h
+    split at h
+    · split at h
+      · cases h
+      · split at h
+        · simp only [Option.some.injEq] at h; subst h
+          simp only [localOkL_cons, Bool.and_eq_true]
+          exact ⟨local_uidItem u, localOkL_map _ _ (fun n _ => local_txt _ _ (by decide))⟩
+        · cases hm : mapO (fun n => (attributeNameTags.lookup n).map (enm T.attributeReference)) ns with
+          | none => rw [hm] at h; cases h
+          | some xs =>
+            rw [hm] at h
+            simp only [Option.map_some, Option.some.injEq] at h; subst h
+            simp only [localOkL_cons, Bool.and_eq_true]
+            refine ⟨local_uidItem u, localOkL_mapO _ _ _ hm (fun n _ b hb => ?_)⟩
+            cases hl : attributeNameTags.lookup n with
+            | none => rw [hl] at hb; cases hb
+            | some tag =>
+              rw [hl] at hb
+              simp only [Option.map_some, Option.some.injEq] at hb; subst hb
+              refine local_enm _ _ (by decide) ?_
+              have ht := lookup_all (fun t => tagOk t) _ _ _ attributeNameTags_tagOk hl
+              have := tagOk_lt tag ht
+              simp only [u32, decide_eq_true_eq]
+              have h3 : (256 : Nat) ^ 3 = 16777216 := by decide
+              omega
+    · cases h
+  | ops os vendor =>
+    simp only [dataInRange] at hr
+    rw [List.all_eq_true] at hr
+    simp only [encData] at h
+    split at h
+    · simp only [Option.some.injEq] at h; subst h
+      rw [localOkL_append, Bool.and_eq_true]
+      refine ⟨localOkL_map _ _ (fun o ho => local_enm _ _ (by decide) (hr o ho)), ?_⟩
+      split
+      · simp only [localOkL_cons, localOkL_nil, Bool.and_true]; exact local_txt _ _ (by decide)
+      · rfl
+    · cases h
+  | versions vs =>
+    simp only [dataInRange] at hr
+    rw [List.all_eq_true] at hr
+    simp only [encData] at h
+    split at h
+    · simp only [Option.some.injEq] at h; subst h
+      refine localOkL_map _ _ (fun v hv => local_struct _ _ (by decide) ?_)
+      have hb := hr v hv
+      simp only [decide_eq_true_eq] at hb
+      simp only [localOkL_cons, localOkL_nil, Bool.and_true, Bool.and_eq_true]
+      refine ⟨local_int _ _ (by decide) ?_, local_int _ _ (by decide) ?_⟩
+      · show i32 ((v / 10 : Nat) : Int) = true
+        simp only [i32, decide_eq_true_eq]; omega
+      · show i32 ((v % 10 : Nat) : Int) = true
+        simp only [i32, decide_eq_true_eq]; omega
+    · cases h
+  | crypto u c =>
+    simp only [encData] at h
+    cases c with
+    | ok t =>
+      simp only at h
+      split at h
+      · rename_i tag b htag hb
+        simp only [Option.some.injEq] at h; subst h
+        rw [localOkL_append, Bool.and_eq_true]
+        refine ⟨?_, ?_⟩
+        · simp only [localOkL_cons, localOkL_nil, Bool.and_true, Bool.and_eq_true]
+          refine ⟨local_uidItem u, local_byt _ _ ?_⟩
+          simp only [cryptoTag] at htag
+          split at htag
+          · simp only [Option.some.injEq] at htag; subst htag; decide
+          · split at htag
+            · simp only [Option.some.injEq] at htag; subst htag; decide
+            · split at htag
+              · simp only [Option.some.injEq] at htag; subst htag; decide
+              · cases htag
+        · simp only [encryptExtra]
+          split
+          · rw [localOkL_append, Bool.and_eq_true]
+            refine ⟨localOkL_filter _ _ hx, ?_⟩
+            split
+            · exact localOkL_filter _ _ hx
+            · rfl
+          · rfl
+      · cases h
+    | verdict b =>
+      simp only at h
+      split at h
+      · simp only [Option.some.injEq] at h; subst h
+        simp only [localOkL_cons, localOkL_nil, Bool.and_true, Bool.and_eq_true]
+        refine ⟨local_uidItem u, local_enm _ _ (by decide) ?_⟩
+        cases b <;> decide
+      · cases h
+    | ok2 _ _ _ _ => simp at h
+    | kmipError _ => simp at h
+    | internal => simp at h
+
+/-! ### batch items and the message -/
+
+theorem localOkL_optItem {α} (o : Option α) (f : α → TItem) (h : ∀ a, o = some a → localOk (f a) = true) :
+    localOkL (Envelope.optItem o f) = true := by
+  cases o with
+  | none => rfl
+  | some a => simp [Envelope.optItem, localOkL, h a rfl]
+
+theorem local_buildItem_success (op : Nat) (bid : Option Bytes) (ks : List TItem) (hop : u32 op = true)
+    (hk : localOkL ks = true) :
+    localOk (Envelope.buildItem ⟨some op, bid, .success (.struct Envelope.tResponsePayload ks)⟩) = true := by
+  simp only [Envelope.buildItem]
+  refine local_struct _ _ (by decide) ?_
+  rw [localOkL_append, localOkL_append]
+  simp only [Bool.and_eq_true]
+  refine ⟨⟨localOkL_optItem _ _ (fun a ha => ?_), localOkL_optItem _ _ (fun b _ => ?_)⟩, ?_⟩
+  · cases ha; simp [localOk, pvalLocal, (u32_iff op).1 hop, Envelope.tOperation, tagOk]
+  · simp [localOk, pvalLocal, Envelope.tUniqueBatchItemID, tagOk]
+  · simp only [localOkL_cons, localOkL_nil, Bool.and_true, Bool.and_eq_true]
+    refine ⟨by simp [localOk, pvalLocal, Envelope.tResultStatus, tagOk], local_struct _ _ (by decide) hk⟩
+
+theorem local_buildItem_failure (op : Option Nat) (bid : Option Bytes) (reason : Nat) (msg : Bytes)
+    (hop : optAll u32 op = true) (hr : u32 reason = true) :
+    localOk (Envelope.buildItem ⟨op, bid, .failure 1 reason msg⟩) = true := by
+  simp only [Envelope.buildItem]
+  refine local_struct _ _ (by decide) ?_
+  rw [localOkL_append, localOkL_append]
+  simp only [Bool.and_eq_true]
+  refine ⟨⟨localOkL_optItem _ _ (fun a ha => ?_), localOkL_optItem _ _ (fun b _ => ?_)⟩, ?_⟩
+  · rw [ha, optAll_some] at hop
+    simp [localOk, pvalLocal, (u32_iff a).1 hop, Envelope.tOperation, tagOk]
+  · simp [localOk, pvalLocal, Envelope.tUniqueBatchItemID, tagOk]
+  · simp [localOkL, localOk, pvalLocal, (u32_iff reason).1 hr, Envelope.tResultStatus, Envelope.tResultReason,
+      Envelope.tResultMessage, tagOk]
+
+theorem local_itemOf (ver : Nat) (extra : List TItem) (r : ItemResult) (ir : Envelope.ItemResult)
+    (hr : resultInRange r = true) (hx : localOkL extra = true) (h : itemOf ver extra r = some ir) :
+    localOk (Envelope.buildItem ir) = true := by
+  obtain ⟨op, bid, res⟩ := r
+  simp only [resultInRange, Bool.and_eq_true] at hr
+  simp only [itemOf] at h
+  cases res with
+  | ok d =>
+    simp only at h hr
+    cases he : encData ver op extra d with
+    | none => rw [he] at h; cases h
+    | some ks =>
+      rw [he] at h
+      simp only [Option.map_some, Option.some.injEq] at h; subst h
+      exact local_buildItem_success op _ ks hr.1 (local_encData ver op extra d ks hr.2 hx he)
+  | error e =>
+    simp only [Option.some.injEq] at h; subst h
+    cases e with
+    | kmip reason msg =>
+      simp only at hr
+      exact local_buildItem_failure _ _ _ _ (by rw [optAll_some]; exact hr.1) hr.2
+    | internal site =>
+      exact local_buildItem_failure _ _ _ _ (by rw [optAll_some]; exact hr.1) (by decide)
+
+theorem itemsOf_length (ver : Nat) : ∀ (rs : List ItemResult) (extras : List (List TItem))
+    (items : List Envelope.ItemResult), itemsOf ver extras rs = some items → items.length = rs.length
+  | [], _, items, h => by simp only [itemsOf, Option.some.injEq] at h; subst h; rfl
+  | r :: rs, extras, items, h => by
+    simp only [itemsOf] at h
+    split at h
+    · rename_i a as h1 h2
+      simp only [Option.some.injEq] at h; subst h
+      simp only [List.length_cons, itemsOf_length ver rs _ as h2]
+    · cases h
+
+theorem local_itemsOf (ver : Nat) : ∀ (rs : List ItemResult) (extras : List (List TItem))
+    (items : List Envelope.ItemResult), rs.all resultInRange = true →
+    extras.all (fun xs => xs.all Item.validB) = true → itemsOf ver extras rs = some items →
+    localOkL (items.map Envelope.buildItem) = true
+  | [], _, items, _, _, h => by simp only [itemsOf, Option.some.injEq] at h; subst h; rfl
+  | r :: rs, extras, items, hr, hx, h => by
+    simp only [List.all_cons, Bool.and_eq_true] at hr
+    simp only [itemsOf] at h
+    split at h
+    · rename_i a as h1 h2
+      simp only [Option.some.injEq] at h; subst h
+      have hhead : localOkL (extras.headD []) = true := by
+        cases extras with
+        | nil => rfl
+        | cons x xs =>
+          simp only [List.all_cons, Bool.and_eq_true] at hx
+          simp only [List.headD_cons]
+          rw [localOkL_all, List.all_eq_true]
+          intro i hi
+          exact local_of_valid i (validB_sound i (List.all_eq_true.1 hx.1 i hi))
+      have htail : extras.tail.all (fun xs => xs.all Item.validB) = true := by
+        cases extras with
+        | nil => rfl
+        | cons x xs => simp only [List.all_cons, Bool.and_eq_true] at hx; exact hx.2
+      simp only [List.map_cons, localOkL_cons, Bool.and_eq_true]
+      exact ⟨local_itemOf ver _ r a hr.1 hhead h1, local_itemsOf ver rs _ as hr.2 htail h2⟩
+    · cases h
+
+theorem local_buildResponse (ver : Int × Int) (now : Int) (items : List Envelope.ItemResult)
+    (h1 : i32 ver.1 = true) (h2 : i32 ver.2 = true) (hn : i64 now = true) (hl : items.length < 2147483648)
+    (hi : localOkL (items.map Envelope.buildItem) = true) :
+    localOk (Envelope.buildResponse ver now items) = true := by
+  simp only [Envelope.buildResponse]
+  refine local_struct _ _ (by decide) ?_
+  simp only [localOkL_cons, Bool.and_eq_true]
+  refine ⟨local_struct _ _ (by decide) ?_, hi⟩
+  have hc : fitsTC 4 (items.length : Int) := by
+    simp only [fitsTC]
+    have : ((256 ^ 4 : Nat) : Int) = 4294967296 := by decide
+    rw [this]; omega
+  simp [localOkL, localOk, pvalLocal, (i32_iff _).1 h1, (i32_iff _).1 h2, (i64_iff _).1 hn, hc,
+    Envelope.tProtocolVersion, Envelope.tProtocolVersionMajor, Envelope.tProtocolVersionMinor, Envelope.tTimeStamp,
+    Envelope.tBatchCount, tagOk]
+
+theorem verPair_i32 (ver : Nat) (h : ver < 21474836480) : i32 (verPair ver).1 = true ∧ i32 (verPair ver).2 = true := by
+  constructor
+  · show i32 ((ver / 10 : Nat) : Int) = true
+    simp only [i32, decide_eq_true_eq]; omega
+  · show i32 ((ver % 10 : Nat) : Int) = true
+    simp only [i32, decide_eq_true_eq]; omega
+
+/-- the message tree of an answer whose fields are in range is locally encodable -/
+theorem local_responseItem (ver : Nat) (now : Int) (extras : List (List TItem)) (res : ReqResult) (i : TItem)
+    (hf : fieldsInRange ver now extras res = true) (h : responseItem ver now extras res = some i) :
+    localOk i = true := by
+  cases res with
+  | results rs =>
+    simp only [fieldsInRange, Bool.and_eq_true, decide_eq_true_eq] at hf
+    simp only [responseItem] at h
+    cases hi : itemsOf ver extras rs with
+    | none => rw [hi] at h; cases h
+    | some items =>
+      rw [hi] at h
+      simp only [Option.map_some, Option.some.injEq] at h; subst h
+      have hv := verPair_i32 ver hf.1.1.1.1
+      exact local_buildResponse _ _ _ hv.1 hv.2 hf.1.1.1.2 (by rw [itemsOf_length ver rs extras items hi]; exact hf.1.1.2)
+        (local_itemsOf ver rs extras items hf.1.2 hf.2 hi)
+  | rejected reason msg =>
+    simp only [fieldsInRange, Bool.and_eq_true, decide_eq_true_eq] at hf
+    simp only [responseItem, Option.some.injEq] at h; subst h
+    have hv := verPair_i32 ver hf.1.1
+    refine local_buildResponse _ _ _ hv.1 hv.2 hf.1.2 (by simp) ?_
+    simp only [List.map_cons, List.map_nil, localOkL_cons, localOkL_nil, Bool.and_true]
+    exact local_buildItem_failure none none reason _ rfl hf.2
+
+/-! ### version gating -/
+
+theorem gatingL_nil_iff (ver : Nat) : ∀ (ks : List TItem), gatingFaultsL ver ks = [] ↔ ∀ k ∈ ks, gatingFaults ver k = []
+  | [] => by simp [gatingFaultsL]
+  | i :: is => by
+    simp only [gatingFaultsL, List.append_eq_nil_iff, gatingL_nil_iff ver is, List.mem_cons, forall_eq_or_imp]
+
+theorem gatingL_append (ver : Nat) (a b : List TItem) :
+    gatingFaultsL ver (a ++ b) = [] ↔ gatingFaultsL ver a = [] ∧ gatingFaultsL ver b = [] := by
+  simp only [gatingL_nil_iff, List.mem_append]
+  constructor
+  · intro h; exact ⟨fun k hk => h k (Or.inl hk), fun k hk => h k (Or.inr hk)⟩
+  · rintro ⟨h1, h2⟩ k (hk | hk)
+    · exact h1 k hk
+    · exact h2 k hk
+
+theorem gating_prim (ver t : Nat) (v : PVal) (h : tagAllowed ver t = true) : gatingFaults ver (.prim t v) = [] := by
+  simp [gatingFaults, h]
+
+theorem gating_struct (ver t : Nat) (ks : List TItem) (h : tagAllowed ver t = true) (hk : gatingFaultsL ver ks = []) :
+    gatingFaults ver (.struct t ks) = [] := by
+  simp [gatingFaults, h, hk]
+
+/-- a tag no gate mentions -/
+def ungated (t : Nat) : Bool := gatedTags.all (fun g => !(g.1 == t))
+
+theorem allowed_of_ungated (ver t : Nat) (h : ungated t = true) : tagAllowed ver t = true := by
+  simp only [ungated, List.all_eq_true] at h
+  simp only [tagAllowed, List.all_eq_true]
+  intro g hg
+  rw [h g hg]; rfl
+
+/-- a tag whose gates (if any) are open from 2.0 on for ever -/
+def open20 (t : Nat) : Bool := gatedTags.all (fun g => !(g.1 == t) || (decide (g.2.1 ≤ 20) && g.2.2.isNone))
+
+theorem allowed_of_open20 (ver t : Nat) (h : open20 t = true) (hv : 20 ≤ ver) : tagAllowed ver t = true := by
+  simp only [open20, List.all_eq_true] at h
+  simp only [tagAllowed, List.all_eq_true]
+  intro g hg
+  have := h g hg
+  simp only [Bool.or_eq_true, Bool.and_eq_true, decide_eq_true_eq, Bool.not_eq_true'] at this ⊢
+  rcases this with h1 | ⟨h1, h2⟩
+  · exact Or.inl h1
+  · right
+    obtain ⟨t', lo, hi⟩ := g
+    cases hi with
+    | some x => cases h2
+    | none => simp only [gateOpen, Bool.and_true, decide_eq_true_eq]; simp only at h1; omega
+
+/-- every tag `enums.is_attribute(tag, KMIP 2.0)` accepts may be sent from 2.0 on (Operation Policy Name and
+Template Attribute are not among them) -/
+theorem attributeTags20_open : ((attributeTags.lookup 20).getD []).all open20 = true := by decide +kernel
+
+theorem allowed_isAttribute20 (ver tag : Nat) (h : isAttribute20 tag = true) (hv : 20 ≤ ver) :
+    tagAllowed ver tag = true := by
+  simp only [isAttribute20, List.contains_iff_mem] at h
+  exact allowed_of_open20 ver tag (List.all_eq_true.1 attributeTags20_open tag h) hv
+
+theorem gating_txt (ver t : Nat) (s : String) (h : ungated t = true) : gatingFaults ver (txt t s) = [] :=
+  gating_prim ver t _ (allowed_of_ungated ver t h)
+theorem gating_enm (ver t n : Nat) (h : ungated t = true) : gatingFaults ver (enm t n) = [] :=
+  gating_prim ver t _ (allowed_of_ungated ver t h)
+theorem gating_int (ver t : Nat) (n : Int) (h : ungated t = true) : gatingFaults ver (int t n) = [] :=
+  gating_prim ver t _ (allowed_of_ungated ver t h)
+theorem gating_byt (ver t : Nat) (b : Bytes) (h : ungated t = true) : gatingFaults ver (byt t b) = [] :=
+  gating_prim ver t _ (allowed_of_ungated ver t h)
+
+theorem gatingL_cons (ver : Nat) (i : TItem) (is : List TItem) :
+    gatingFaultsL ver (i :: is) = [] ↔ gatingFaults ver i = [] ∧ gatingFaultsL ver is = [] := by
+  simp only [gatingFaultsL, List.append_eq_nil_iff]
+
+theorem gatingL_nil (ver : Nat) : gatingFaultsL ver [] = [] := rfl
+
+theorem gatingL_optL {α} (ver : Nat) (o : Option α) (f : α → TItem) (h : ∀ a, gatingFaults ver (f a) = []) :
+    gatingFaultsL ver (optL o f) = [] := by
+  cases o with
+  | none => rfl
+  | some a => simp [optL, gatingFaultsL, h a]
+
+theorem gatingL_map {α} (ver : Nat) (l : List α) (f : α → TItem) (h : ∀ a ∈ l, gatingFaults ver (f a) = []) :
+    gatingFaultsL ver (l.map f) = [] := by
+  rw [gatingL_nil_iff]
+  intro k hk
+  obtain ⟨a, ha, rfl⟩ := List.mem_map.1 hk
+  exact h a ha
+
+theorem gatingL_mapO {α} (ver : Nat) (f : α → Option TItem) (l : List α) (xs : List TItem) (h : mapO f l = some xs)
+    (hf : ∀ a ∈ l, ∀ b, f a = some b → gatingFaults ver b = []) : gatingFaultsL ver xs = [] := by
+  rw [gatingL_nil_iff]
+  intro b hb
+  obtain ⟨a, ha, hfa⟩ := mapO_some f l xs h b hb
+  exact hf a ha b hfa
+
+theorem gating_encValue (ver tag : Nat) (name : String) (v : AVal) (x : TItem) (ht : tagAllowed ver tag = true)
+    (h : encValue tag name v = some x) : gatingFaults ver x = [] := by
+  cases v with
+  | enum n => simp only [encValue, Option.some.injEq] at h; subst h; exact gating_prim _ _ _ ht
+  | int n =>
+    simp only [encValue] at h
+    split at h
+    · split at h
+      · simp only [Option.some.injEq] at h; subst h; exact gating_prim _ _ _ ht
+      · cases h
+    · simp only [Option.some.injEq] at h; subst h; exact gating_prim _ _ _ ht
+  | text s => simp only [encValue, Option.some.injEq] at h; subst h; exact gating_prim _ _ _ ht
+  | bool b => simp only [encValue, Option.some.injEq] at h; subst h; exact gating_prim _ _ _ ht
+  | date n => simp only [encValue, Option.some.injEq] at h; subst h; exact gating_prim _ _ _ ht
+  | name s t =>
+    simp only [encValue, Option.some.injEq] at h; subst h
+    refine gating_struct _ _ _ ht ?_
+    simp only [gatingL_cons, gatingL_nil, and_true]
+    exact ⟨gating_txt _ _ _ (by decide), gating_enm _ _ _ (by decide)⟩
+  | appInfo ns d =>
+    simp only [encValue, Option.some.injEq] at h; subst h
+    refine gating_struct _ _ _ ht ?_
+    simp only [gatingL_cons, gatingL_nil, and_true]
+    exact ⟨gating_txt _ _ _ (by decide), gating_txt _ _ _ (by decide)⟩
+  | other => simp [encValue] at h
+
+theorem gating_encAttr1x (ver : Nat) (a : TAttr) (x : TItem) (h : encAttr1x a = some x) :
+    gatingFaults ver x = [] := by
+  simp only [encAttr1x] at h
+  split at h
+  · rename_i v hv
+    simp only [Option.some.injEq] at h; subst h
+    refine gating_struct _ _ _ (allowed_of_ungated _ _ (by decide)) ?_
+    rw [gatingL_append, gatingL_append]
+    refine ⟨⟨?_, gatingL_optL _ _ _ (fun i => gating_int _ _ _ (by decide))⟩, ?_⟩
+    · simp only [gatingL_cons, gatingL_nil, and_true]; exact gating_txt _ _ _ (by decide)
+    · simp only [gatingL_cons, gatingL_nil, and_true]
+      exact gating_encValue _ _ _ _ _ (allowed_of_ungated _ _ (by decide)) hv
+  · cases h
+
+theorem gating_encAttr20 (ver : Nat) (a : TAttr) (x : TItem) (hv : 20 ≤ ver) (h : encAttr20 a = some x) :
+    gatingFaults ver x = [] := by
+  simp only [encAttr20] at h
+  split at h
+  · cases h
+  · rename_i tag htag
+    split at h
+    · rename_i hattr
+      exact gating_encValue _ _ _ _ _ (allowed_isAttribute20 ver tag hattr hv) h
+    · cases h
+
+theorem gatingL_filter (ver : Nat) (l : List TItem) (p : TItem → Bool) (h : ∀ x ∈ l, p x = true → gatingFaults ver x = []) :
+    gatingFaultsL ver (l.filter p) = [] := by
+  rw [gatingL_nil_iff]
+  intro k hk
+  have := List.mem_filter.1 hk
+  exact h k this.1 this.2
+
+theorem gating_encKeyBlock (ver format : Nat) (value : Bytes) (alg len : Option Nat) (kwd : List TItem)
+    (hk : gatingFaultsL ver kwd = []) : gatingFaults ver (encKeyBlock format value alg len kwd) = [] := by
+  refine gating_struct _ _ _ (allowed_of_ungated _ _ (by decide)) ?_
+  rw [gatingL_append, gatingL_append, gatingL_append]
+  refine ⟨⟨⟨?_, gatingL_optL _ _ _ (fun a => gating_enm _ _ _ (by decide))⟩,
+    gatingL_optL _ _ _ (fun a => gating_int _ _ _ (by decide))⟩, hk⟩
+  simp only [gatingL_cons, gatingL_nil, and_true]
+  refine ⟨gating_enm _ _ _ (by decide), gating_struct _ _ _ (allowed_of_ungated _ _ (by decide)) ?_⟩
+  simp only [gatingL_cons, gatingL_nil, and_true]
+  exact gating_byt _ _ _ (by decide)
+
+theorem gating_encSecret (ver otype : Nat) (value : Bytes) (alg len format subtype : Option Nat) (wrapped : Bool)
+    (extra : List TItem) (x : TItem) (hx : ∀ e ∈ extra, gatingFaults ver e = [])
+    (h : encSecret otype value alg len format subtype wrapped extra = some x) : gatingFaults ver x = [] := by
+  have hkwd : gatingFaultsL ver (if wrapped = true then extra.filter isKwd else []) = [] := by
+    split
+    · exact gatingL_filter _ _ _ (fun e he _ => hx e he)
+    · rfl
+  have hkb := fun f => gating_encKeyBlock ver f value alg len _ hkwd
+  simp only [encSecret] at h
+  split at h
+  · cases subtype with
+    | none => cases h
+    | some st =>
+      simp only [Option.map_some, Option.some.injEq] at h; subst h
+      refine gating_struct _ _ _ (allowed_of_ungated _ _ (by decide)) ?_
+      simp only [gatingL_cons, gatingL_nil, and_true]
+      exact ⟨gating_enm _ _ _ (by decide), gating_byt _ _ _ (by decide)⟩
+  · split at h
+    · cases subtype with
+      | none => cases h
+      | some st =>
+        simp only [Option.map_some, Option.some.injEq] at h; subst h
+        refine gating_struct _ _ _ (allowed_of_ungated _ _ (by decide)) ?_
+        simp only [gatingL_cons, gatingL_nil, and_true]
+        exact ⟨gating_enm _ _ _ (by decide), gating_byt _ _ _ (by decide)⟩
+    · split at h
+      · cases format with
+        | none => cases h
+        | some f =>
+          simp only [Option.map_some, Option.some.injEq] at h; subst h
+          refine gating_struct _ _ _ (allowed_of_ungated _ _ (by decide)) ?_
+          simp only [gatingL_cons, gatingL_nil, and_true]; exact hkb f
+      · split at h
+        · cases format with
+          | none => cases h
+          | some f =>
+            simp only [Option.map_some, Option.some.injEq] at h; subst h
+            refine gating_struct _ _ _ (allowed_of_ungated _ _ (by decide)) ?_
+            simp only [gatingL_cons, gatingL_nil, and_true]; exact hkb f
+        · split at h
+          · cases format with
+            | none => cases h
+            | some f =>
+              simp only [Option.map_some, Option.some.injEq] at h; subst h
+              refine gating_struct _ _ _ (allowed_of_ungated _ _ (by decide)) ?_
+              simp only [gatingL_cons, gatingL_nil, and_true]; exact hkb f
+          · split at h
+            · cases format with
+              | none => cases h
+              | some f =>
+                simp only [Option.map_some, Option.some.injEq] at h; subst h
+                refine gating_struct _ _ _ (allowed_of_ungated _ _ (by decide)) ?_
+                rw [gatingL_append]
+                refine ⟨gatingL_filter _ _ _ (fun e he _ => hx e he), ?_⟩
+                simp only [gatingL_cons, gatingL_nil, and_true]; exact hkb f
+            · split at h
+              · split at h
+                · rename_i f st
+                  simp only [Option.some.injEq] at h; subst h
+                  refine gating_struct _ _ _ (allowed_of_ungated _ _ (by decide)) ?_
+                  simp only [gatingL_cons, gatingL_nil, and_true]
+                  exact ⟨gating_enm _ _ _ (by decide), hkb f⟩
+                · cases h
+              · cases h
+
+theorem gating_uidItem (ver : Nat) (u : String) : gatingFaults ver (uidItem u) = [] := gating_txt _ _ _ (by decide)
+
+/-- the oracle subtrees respect the version, except that an Authenticated Encryption Tag may be handed to Encrypt
+below KMIP 1.4 (the model drops it there) -/
+def ExtraClean (ver op : Nat) (extra : List TItem) : Prop :=
+  ∀ x ∈ extra, gatingFaults ver x = [] ∨
+    (op = Op.encrypt ∧ tagOfItem x = T.authenticatedEncryptionTag ∧ ver < 14)
+
+/-- **No element is sent under a version that excludes it** (payload level). -/
+theorem gating_encData (ver op : Nat) (extra : List TItem) (d : Data) (ks : List TItem)
+    (hx : ExtraClean ver op extra) (h : encData ver op extra d = some ks) : gatingFaultsL ver ks = [] := by
+  cases d with
+  | uid u =>
+    simp only [encData] at h
+    split at h
+    · simp only [Option.some.injEq] at h; subst h
+      simp only [gatingL_cons, gatingL_nil, and_true]
+      exact ⟨gating_enm _ _ _ (by decide), gating_uidItem _ u⟩
+    · split at h
+      · simp only [Option.some.injEq] at h; subst h
+        simp only [gatingL_cons, gatingL_nil, and_true]; exact gating_uidItem _ u
+      · split at h
+        · split at h
+          · simp only [Option.some.injEq] at h; subst h
+            simp only [gatingL_cons, gatingL_nil, and_true]; exact gating_uidItem _ u
+          · cases h
+        · cases h
+  | uidAttr u a =>
+    simp only [encData] at h
+    split at h
+    · split at h
+      · cases a with
+        | none => cases h
+        | some a =>
+          simp only at h
+          cases hx1 : encAttr1x a with
+          | none => rw [hx1] at h; cases h
+          | some x =>
+            rw [hx1] at h
+            simp only [Option.map_some, Option.some.injEq] at h; subst h
+            simp only [gatingL_cons, gatingL_nil, and_true]
+            exact ⟨gating_uidItem _ u, gating_encAttr1x ver a x hx1⟩
+      · simp only [Option.some.injEq] at h; subst h
+        simp only [gatingL_cons, gatingL_nil, and_true]; exact gating_uidItem _ u
+    · cases h
+  | keyPair priv pub =>
+    simp only [encData] at h
+    split at h
+    · simp only [Option.some.injEq] at h; subst h
+      simp only [gatingL_cons, gatingL_nil, and_true]
+      exact ⟨gating_txt _ _ _ (by decide), gating_txt _ _ _ (by decide)⟩
+    · cases h
+  | uids us =>
+    simp only [encData] at h
+    split at h
+    · simp only [Option.some.injEq] at h; subst h
+      exact gatingL_map _ _ _ (fun u _ => gating_uidItem _ u)
+    · cases h
+  | object otype u value alg len format subtype wrapped =>
+    simp only [encData] at h
+    split at h
+    · rename_i hop
+      have hclean : ∀ e ∈ extra, gatingFaults ver e = [] := by
+        intro e he
+        rcases hx e he with h1 | ⟨h1, _, _⟩
+        · exact h1
+        · simp only [beq_iff_eq] at hop; rw [hop] at h1; cases h1
+      split at h
+      · cases h
+      · split at h
+        · rename_i s hs
+          simp only [Option.some.injEq] at h; subst h
+          simp only [gatingL_cons, gatingL_nil, and_true]
+          exact ⟨gating_enm _ _ _ (by decide), gating_uidItem _ u, gating_encSecret _ _ _ _ _ _ _ _ _ _ hclean hs⟩
+        · cases h
+    · cases h
+  | attrs u as =>
+    simp only [encData] at h
+    split at h
+    · split at h
+      · cases hm : mapO encAttr1x as with
+        | none => rw [hm] at h; cases h
+        | some xs =>
+          rw [hm] at h
+          simp only [Option.map_some, Option.some.injEq] at h; subst h
+          rw [gatingL_cons]
+          exact ⟨gating_uidItem _ u, gatingL_mapO _ _ _ _ hm (fun a _ b hb => gating_encAttr1x ver a b hb)⟩
+      · rename_i hv
+        split at h
+        · cases h
+        · cases hm : mapO encAttr20 as with
+          | none => rw [hm] at h; cases h
+          | some xs =>
+            rw [hm] at h
+            simp only [Option.map_some, Option.some.injEq] at h; subst h
+            have hv' : 20 ≤ ver := by omega
+            simp only [gatingL_cons, gatingL_nil, and_true]
+            refine ⟨gating_uidItem _ u, gating_struct _ _ _ ?_
+              (gatingL_mapO _ _ _ _ hm (fun a _ b hb => gating_encAttr20 ver a b hv' hb))⟩
+            exact allowed_of_open20 _ _ (by decide) hv'
+    · cases h
+  | names u ns =>
+    simp only [encData] at h
+    split at h
+    · split at h
+      · cases h
+      · split at h
+        · simp only [Option.some.injEq] at h; subst h
+          rw [gatingL_cons]
+          exact ⟨gating_uidItem _ u, gatingL_map _ _ _ (fun n _ => gating_txt _ _ _ (by decide))⟩
+        · rename_i hv
+          have hv' : 20 ≤ ver := by omega
+          cases hm : mapO (fun n => (attributeNameTags.lookup n).map (enm T.attributeReference)) ns with
+          | none => rw [hm] at h; cases h
+          | some xs =>
+            rw [hm] at h
+            simp only [Option.map_some, Option.some.injEq] at h; subst h
+            rw [gatingL_cons]
+            refine ⟨gating_uidItem _ u, gatingL_mapO _ _ _ _ hm (fun n _ b hb => ?_)⟩
+            cases hl : attributeNameTags.lookup n with
+            | none => rw [hl] at hb; cases hb
+            | some tag =>
+              rw [hl] at hb
+              simp only [Option.map_some, Option.some.injEq] at hb; subst hb
+              exact gating_prim _ _ _ (allowed_of_open20 _ _ (by decide) hv')
+    · cases h
+  | ops os vendor =>
+    simp only [encData] at h
+    split at h
+    · simp only [Option.some.injEq] at h; subst h
+      rw [gatingL_append]
+      refine ⟨gatingL_map _ _ _ (fun o _ => gating_enm _ _ _ (by decide)), ?_⟩
+      split
+      · simp only [gatingL_cons, gatingL_nil, and_true]; exact gating_txt _ _ _ (by decide)
+      · rfl
+    · cases h
+  | versions vs =>
+    simp only [encData] at h
+    split at h
+    · simp only [Option.some.injEq] at h; subst h
+      refine gatingL_map _ _ _ (fun v _ => gating_struct _ _ _ (allowed_of_ungated _ _ (by decide)) ?_)
+      simp only [gatingL_cons, gatingL_nil, and_true]
+      exact ⟨gating_int _ _ _ (by decide), gating_int _ _ _ (by decide)⟩
+    · cases h
+  | crypto u c =>
+    simp only [encData] at h
+    cases c with
+    | ok t =>
+      simp only at h
+      split at h
+      · rename_i tag b htag hb
+        simp only [Option.some.injEq] at h; subst h
+        rw [gatingL_append]
+        refine ⟨?_, ?_⟩
+        · simp only [gatingL_cons, gatingL_nil, and_true]
+          refine ⟨gating_uidItem _ u, gating_byt _ _ _ ?_⟩
+          simp only [cryptoTag] at htag
+          split at htag
+          · simp only [Option.some.injEq] at htag; subst htag; decide
+          · split at htag
+            · simp only [Option.some.injEq] at htag; subst htag; decide
+            · split at htag
+              · simp only [Option.some.injEq] at htag; subst htag; decide
+              · cases htag
+        · simp only [encryptExtra]
+          split
+          · rw [gatingL_append]
+            refine ⟨gatingL_filter _ _ _ (fun e he hp => ?_), ?_⟩
+            · rcases hx e he with h1 | ⟨_, h2, _⟩
+              · exact h1
+              · simp only [beq_iff_eq] at hp; rw [h2] at hp; cases hp
+            · split
+              · rename_i hv
+                refine gatingL_filter _ _ _ (fun e he _ => ?_)
+                rcases hx e he with h1 | ⟨_, _, h3⟩
+                · exact h1
+                · omega
+              · rfl
+          · rfl
+      · cases h
+    | verdict b =>
+      simp only at h
+      split at h
+      · simp only [Option.some.injEq] at h; subst h
+        simp only [gatingL_cons, gatingL_nil, and_true]
+        exact ⟨gating_uidItem _ u, gating_enm _ _ _ (by decide)⟩
+      · cases h
+    | ok2 _ _ _ _ => simp at h
+    | kmipError _ => simp at h
+    | internal => simp at h
+
+/-! ### the engine model returns, for every operation, a result of that operation's shape -/
+
+/-- the backend oracle answers a signature verification with a verdict and every other operation with a token
+(the kind of thing the real backend's function returns) -/
+def CryptoKindOk (it : Kmip.Item) : Prop :=
+  match it.payload with
+  | .signatureVerify _ _ => ∀ t, it.crypto ≠ .ok t
+  | .encrypt _ _ | .decrypt _ _ | .sign _ _ | .mac _ _ _ => ∀ b, it.crypto ≠ .verdict b
+  | _ => True
+
+theorem cryptoResult_shape {uid : Option String} {cr : Crypto} {eff : Effect} {d : Data}
+    (h : cryptoResult uid cr = .ok (eff, d)) :
+    (∃ t, cr = .ok t ∧ d = .crypto (showUid uid) (.ok t)) ∨ (∃ b, cr = .verdict b ∧ d = .crypto (showUid uid) (.verdict b)) := by
+  unfold cryptoResult at h
+  split at h
+  · inv h; left; exact ⟨_, rfl, h.2.symm⟩
+  · inv h; right; exact ⟨_, rfl, h.2.symm⟩
+  · rename_i other _ _
+    cases other <;> simp [cryptoErr, kerr, ierr] at h
+
+theorem processOperation_data_fits {c : Ctx} {e : Engine} {it : Kmip.Item} {eff : Effect} {d : Data}
+    (hk : CryptoKindOk it) (h : processOperation c e it = .ok (eff, d)) : shapeFits it.payload.op d = true := by
+  unfold processOperation at h
+  split at h
+  · inv h
+  · split at h
+    · inv h
+    · unfold CryptoKindOk at hk
+      split at h <;> rename_i hpay <;> rw [hpay] at hk ⊢ <;> simp only [Payload.op] <;> simp only at hk
+      · unfold opCreate at h; inv h; strip h; subst d; rfl
+      · unfold opCreateKeyPair at h; inv h; strip h; subst d; rfl
+      · unfold opRegister at h
+        inv h
+        obtain ⟨_, h⟩ := h
+        split at h
+        · inv h
+        · inv h; strip h; subst d; rfl
+      · unfold opDeriveKey at h; inv h; strip h; subst d; rfl
+      · unfold opLocate at h; inv h; strip h; subst d; rfl
+      · unfold opGet at h
+        inv h
+        obtain ⟨_, _, _, _, _, h⟩ := h
+        split at h <;> inv h
+        · obtain ⟨dd, hd, _, rfl⟩ := h
+          unfold coreObject at hd
+          split at hd
+          · inv hd; subst hd; rfl
+          · split at hd
+            · inv hd; subst hd; rfl
+            · split at hd
+              · inv hd; subst hd; rfl
+              · inv hd
+        · obtain ⟨_, _, dd, hd, _, rfl⟩ := h
+          unfold coreObject at hd
+          split at hd
+          · inv hd; subst hd; rfl
+          · split at hd
+            · inv hd; subst hd; rfl
+            · split at hd
+              · inv hd; subst hd; rfl
+              · inv hd
+      · unfold opGetAttributes at h; inv h; strip h; subst d; rfl
+      · unfold opGetAttributeList at h; inv h; strip h; subst d; rfl
+      · unfold opActivate at h
+        inv h
+        obtain ⟨o, _, h⟩ := h
+        split at h
+        · inv h
+        · inv h; obtain ⟨_, _, rfl⟩ := h; rfl
+      · unfold opRevoke at h
+        split at h
+        · inv h
+        · inv h
+          obtain ⟨o, _, h⟩ := h
+          split at h
+          · inv h
+          · split at h
+            · inv h; obtain ⟨_, rfl⟩ := h; rfl
+            · inv h; obtain ⟨_, _, rfl⟩ := h; rfl
+      · unfold opDestroy at h; inv h; strip h; subst d; rfl
+      · unfold opQuery at h; inv h; strip h; subst d; rfl
+      · unfold opDiscoverVersions at h
+        split at h <;> inv h <;> (obtain ⟨_, rfl⟩ := h; rfl)
+      · unfold opEncrypt at h; inv h; obtain ⟨_, _, h⟩ := h
+        rcases cryptoResult_shape h with ⟨t, _, rfl⟩ | ⟨b, hb, rfl⟩
+        · rfl
+        · exact absurd hb (hk b)
+      · unfold opDecrypt at h; inv h; obtain ⟨_, _, h⟩ := h
+        rcases cryptoResult_shape h with ⟨t, _, rfl⟩ | ⟨b, hb, rfl⟩
+        · rfl
+        · exact absurd hb (hk b)
+      · unfold opSign at h; inv h; obtain ⟨_, _, h⟩ := h
+        rcases cryptoResult_shape h with ⟨t, _, rfl⟩ | ⟨b, hb, rfl⟩
+        · rfl
+        · exact absurd hb (hk b)
+      · unfold opSignatureVerify at h; inv h; obtain ⟨_, _, h⟩ := h
+        rcases cryptoResult_shape h with ⟨t, ht, rfl⟩ | ⟨b, _, rfl⟩
+        · exact absurd ht (hk t)
+        · rfl
+      · unfold opMac at h; inv h; strip h
+        rcases cryptoResult_shape h with ⟨t, _, rfl⟩ | ⟨b, hb, rfl⟩
+        · rfl
+        · exact absurd hb (hk b)
+      · unfold opSetAttribute at h; inv h; strip h; subst d; rfl
+      · unfold opModifyAttribute at h; inv h; strip h; subst d; rfl
+      · unfold opDeleteAttribute at h; inv h; strip h; subst d; rfl
+      · inv h
+
+/-- Create succeeds for Symmetric Key only: the Object Type of a Create response is that constant -/
+theorem opCreate_symmetric {c : Ctx} {e : Engine} {ot : Nat} {t : Option Template} {cr : Crypto} {r : Effect × Data}
+    (h : opCreate c e ot t cr = .ok r) : ot = OT.symmetricKey := by
+  unfold opCreate at h
+  inv h
+  obtain ⟨hne, _⟩ := h
+  simpa using hne
+
 end Kmip.Encode
